@@ -526,7 +526,7 @@ def scenario_job(athlib, scn, sched_seeds, opts):
         rng = random.Random(sseed)
         spec = draw_schedule(rng, len(programs), traces, wlines, used)
         res = run_one(athlib, programs, spec, step_cap)
-        rd = (rd + common.run_digest_term(sseed, [res['status'], res['out'], res['switches'], res['digest']])) & ((1 << 64) - 1)
+        rd = (rd + common.run_digest_term(sseed, [res['status'], common.canon_outcome(res['out']), res['switches'], res['digest']])) & ((1 << 64) - 1)
         cnt.inc('runs')
         cnt.inc('steps', res['steps'])
         cnt.inc('preemptions_planned', len(spec['preemptions']))
@@ -717,7 +717,7 @@ def determinism_selftest(master, n, k=3):
     b = {}
     for part in common.run_pool(local, 1 if n < 8 else 3, wall_cap=1800):
         b.update(part)
-    env = dict(os.environ, PYTHONHASHSEED='12345', PYTHONDONTWRITEBYTECODE='1')
+    env = dict(os.environ, VERIF_HASHSEED='12345', PYTHONHASHSEED='12345', PYTHONDONTWRITEBYTECODE='1')
     sub_idxs = idxs[:max(4, n // 4)]
     p = subprocess.run([sys.executable, os.path.join(common.VERIF_DIR, 'run_check.py'), '--det-fingerprint',
                         PROP, str(master), ','.join(map(str, sub_idxs)), str(k)],
@@ -760,8 +760,8 @@ def det_fingerprint(athlib, master, idx, k):
         for s in seeds:
             spec = draw_schedule(random.Random(s), len(scn['programs']), traces, wlines, used)
             res = run_one(athlib, scn['programs'], spec, 300000)
-            fp.append([res['status'], res['out'], res['switches'], res['digest'], res['steps']])
-        return common.digest_of([scn, [[sorted(x) for x in a] for a in accepted], fp])
+            fp.append([res['status'], common.canon_outcome(res['out']), res['switches'], res['digest'], res['steps']])
+        return common.digest_of([scn, common.canon_outcome([[sorted(x) for x in a] for a in accepted]), fp])
     return common.fork_call(job, wall_cap=300.0, what='det fingerprint %d' % idx)
 
 
